@@ -190,6 +190,11 @@ def corpus():
     colA, colB = [[0, 0, 0], [0, 0, 1], [0, 0, 2]], [[1, 1, 0], [1, 1, 1]]
     wdeps = [[[0, 2, 0], colA], [[0, 2, 1], colA], [[0, 3, 0], [[0, 2, 0], [0, 2, 1]]], [[1, 0, 0], colB + [[0, 2, 0]]], [[1, 0, 1], colB]]
     rs += [{'sheets': wc, 'deps': wdeps, 'entry': e} for e in ([0, 3, 0], [1, 0, 0], [0, 2, 1], [1, 0, 1], None)]
+    # long cycles: a ring of 60 cells in column A (A1 -> A2 -> ... -> A60 -> A1), reached through a tail B1 -> B2 -> A7
+    ring = {'A%d' % i: '=A%d+1' % (i % 60 + 1) for i in range(1, 61)}
+    ring.update({'B1': '=B2+1', 'B2': '=A7*2', 'C1': 5})
+    rdeps = [[[0, 0, i - 1], [[0, 0, i % 60]]] for i in range(1, 61)] + [[[0, 1, 0], [[0, 1, 1]]], [[0, 1, 1], [[0, 0, 6]]]]
+    rs += [{'sheets': [['S0', ring]], 'deps': rdeps, 'entry': e} for e in ([0, 0, 0], [0, 1, 0], [0, 0, 30], [0, 2, 0], None)]
     return rs
 
 
